@@ -65,23 +65,29 @@ var renderData = data.Map{"x": data.String("X"), "t": data.Bool(true)}
 
 // TemplateFile wraps a template body into a complete Soy file. Params are
 // declared only when used (the compiler rejects unused params).
-func TemplateFile(body string) string {
+func TemplateFile(body string) string { return TemplateFileEol(body, "\n") }
+
+// TemplateFileEol is TemplateFile with the given line end in the wrapper
+// (the body is used as it is).
+func TemplateFileEol(body, nl string) string {
 	var b strings.Builder
-	b.WriteString("{namespace t}\n\n/**\n")
+	b.WriteString("{namespace t}" + nl + nl + "/**" + nl)
 	if strings.Contains(body, "$x") {
-		b.WriteString(" * @param x\n")
+		b.WriteString(" * @param x" + nl)
 	}
 	if strings.Contains(body, "$t") {
-		b.WriteString(" * @param t\n")
+		b.WriteString(" * @param t" + nl)
 	}
-	b.WriteString(" */\n{template .m}")
+	b.WriteString(" */" + nl + "{template .m}")
 	b.WriteString(body)
-	b.WriteString("{/template}\n")
+	b.WriteString("{/template}" + nl)
 	if strings.Contains(body, "{call .u/}") {
-		b.WriteString("\n/** */\n{template .u}U{/template}\n")
+		b.WriteString(nl + "/** */" + nl + "{template .u}U{/template}" + nl)
 	}
 	return b.String()
 }
+
+var eolOf = map[string]string{"lf": "\n", "crlf": "\r\n", "cr": "\r"}
 
 // Obs is the observable outcome of compiling and rendering one template.
 type Obs struct {
